@@ -111,9 +111,7 @@ theorem wf_store {c : Cache} (h : c.WF) (e : Entry) : (c.store e).WF := by
 
 theorem wf_invalidate {c : Cache} (h : c.WF) (id : Str) : (c.invalidate id).WF := by
   unfold Cache.invalidate
-  split
-  · exact h
-  · exact wf_filter h _ _
+  exact wf_filter h _ _
 
 theorem wf_forget {c : Cache} (h : c.WF) (id : Str) : (c.forget id).WF := wf_filter h _ _
 
@@ -212,9 +210,7 @@ theorem dead_store {c : Cache} {S : Str} {t : Nat} (h : c.DeadAt S t) (e : Entry
 theorem dead_invalidate {c : Cache} (hw : c.WF) {S : Str} {t : Nat} (h : c.DeadAt S t) (id : Str) :
     (c.invalidate id).DeadAt S t := by
   unfold Cache.invalidate
-  split
-  · exact h
-  · exact dead_filter hw h _ _
+  exact dead_filter hw h _ _
 
 theorem dead_forget {c : Cache} (hw : c.WF) {S : Str} {t : Nat} (h : c.DeadAt S t) (id : Str) :
     (c.forget id).DeadAt S t := dead_filter hw h _ _
